@@ -11,6 +11,7 @@ mod mt;
 mod pexpr;
 mod pgr;
 mod slot;
+mod fl;
 mod sql;
 mod tree;
 mod tup;
@@ -70,6 +71,7 @@ fn main() {
                     "tree" => tree::run(&toks),
                     "pgr" => pgr::run(&toks),
                     "slot" => slot::run(&toks),
+                    "fl" => fl::run(&toks),
                     _ => panic!("unknown mode"),
                 }));
                 let s = match r {
